@@ -1,5 +1,5 @@
 import BadgerProofs.Props.C16
-import BadgerProofs.Lemmas.LogTorn
+import BadgerProofs.Lemmas.LogZero
 /-!
 # C09 (log part) — a torn tail of a WAL / value log is recovered, not surfaced
 
@@ -62,86 +62,12 @@ theorem C09_log_trunc (fid : Nat) (cipher : Nat → Nat → UInt8) (us : List Lo
   · subst h
     exact safeRead_take ks _ e hwf j hj
 
-/-- The torn candidate is not accepted as a record: reading it gives a short-read error, or a
-    zero entry (empty key). Decidable (`tornRejectedB`). This is the `NoCrcCollision` hypothesis in
-    its operational form — see `NoCrcCollision` below for the checksum-only form. -/
-def TornRejected (ks : Nat → UInt8) (b : Bytes) : Prop :=
-  Torn (safeReadEntry ks b) ∨ ∃ e h, safeReadEntry ks b = .ok (e, h) ∧ e.key = []
-
-def tornRejectedB (ks : Nat → UInt8) (b : Bytes) : Bool :=
-  match safeReadEntry ks b with
-  | .error .eof => true
-  | .error .unexpectedEof => true
-  | .error .truncate => true
-  | .error _ => false
-  | .ok (e, _) => e.key.isEmpty
-
-theorem tornRejectedB_iff (ks : Nat → UInt8) (b : Bytes) :
-    tornRejectedB ks b = true ↔ TornRejected ks b := by
-  unfold tornRejectedB TornRejected Torn TornErr
-  cases h : safeReadEntry ks b with
-  | error e => cases e <;> simp
-  | ok r => obtain ⟨e, hl⟩ := r; simp [List.isEmpty_iff]
-
-instance (ks : Nat → UInt8) (b : Bytes) : Decidable (TornRejected ks b) :=
-  decidable_of_iff _ (tornRejectedB_iff ks b)
-
-theorem breaks_of_tornRejected {ks : Nat → UInt8} {b : Bytes} (lc : Nat) (h : TornRejected ks b) :
-    Breaks ks lc b := by
-  rcases h with h | ⟨e, hl, hr, hk⟩
-  · exact Or.inl h
-  · exact Or.inr ⟨e, hl, hr, Or.inl hk⟩
-
-/-- A zero-filled region is never a record: the all-zero header announces an empty key and an
-    empty value, and `crc32c [0,0,0,0,0] ≠ 0`. -/
-theorem tornRejected_zeros (ks : Nat → UInt8) (n : Nat) : TornRejected ks (List.replicate n 0) := by
-  refine Or.inl ?_
-  match n with
-  | 0 => exact ⟨.eof, Or.inl rfl, by simp [safeReadEntry, headerDecodeFrom, readByte]⟩
-  | 1 => exact ⟨.eof, Or.inl rfl, by simp [safeReadEntry, headerDecodeFrom, readByte, List.replicate]⟩
-  | 2 => exact ⟨.eof, Or.inl rfl, by
-      simp [safeReadEntry, headerDecodeFrom, readByte, List.replicate, readUvarint, readUvarintAux]⟩
-  | 3 => exact ⟨.eof, Or.inl rfl, by
-      simp [safeReadEntry, headerDecodeFrom, readByte, List.replicate, readUvarint, readUvarintAux]⟩
-  | 4 => exact ⟨.eof, Or.inl rfl, by
-      simp [safeReadEntry, headerDecodeFrom, readByte, List.replicate, readUvarint, readUvarintAux]⟩
-  | m + 5 =>
-    have hd : headerDecodeFrom (List.replicate (m + 5) (0 : UInt8)) =
-        .ok (⟨0, 0, 0, 0, 0⟩, List.replicate m 0) := by
-      simp [headerDecodeFrom, readByte, List.replicate, readUvarint, readUvarintAux]
-    have hcrc : crc32c (List.take 5 (List.replicate (m + 5) (0 : UInt8))) ≠ 0 := by
-      have : List.take 5 (List.replicate (m + 5) (0 : UInt8)) = [0, 0, 0, 0, 0] := by
-        simp [List.replicate]
-      rw [this]; exact crc32c_zero_header
-    unfold safeReadEntry
-    rw [hd]
-    simp only [Nat.zero_add, Nat.zero_mod, List.length_replicate, Nat.add_sub_cancel_left]
-    rw [if_neg (by omega)]
-    simp only [readFull, if_true, Nat.lt_irrefl, if_false, List.length_replicate]
-    match m with
-    | 0 => exact ⟨.truncate, Or.inr (Or.inr rfl), by simp⟩
-    | 1 => exact ⟨.unexpectedEof, Or.inr (Or.inl rfl), by simp⟩
-    | 2 => exact ⟨.unexpectedEof, Or.inr (Or.inl rfl), by simp⟩
-    | 3 => exact ⟨.unexpectedEof, Or.inr (Or.inl rfl), by simp⟩
-    | k + 4 =>
-      refine ⟨.truncate, Or.inr (Or.inr rfl), ?_⟩
-      have h4 : List.take 4 (List.replicate (k + 4) (0 : UInt8)) = [0, 0, 0, 0] := by
-        simp [List.replicate]
-      simp only [show ¬ (k + 4 = 0) by omega, show ¬ (k + 4 < 4) by omega, if_false, h4]
-      rw [if_neg (by decide)]
-      simp only [Nat.add_zero]
-      rw [if_pos]
-      simpa [beNat] using hcrc.symm
-
-/-- **Zero-filled tail, partial.** The log is cut at `c` and followed by `n` zero bytes. Let
-    `(o, t) = tornAt …` be the offset and surviving bytes of the torn record. If the torn
-    candidate `t ++ 0ⁿ` is not accepted as a record (`TornRejected`, decidable, evaluated on every
-    generated case by the harness), the result is the same as for the truncated log.
-
-    *Partial*: the hypothesis also excludes that the damaged header makes `safeRead.Entry`
-    fail with a varint overflow or panic; the full statement `C09_log_zeroStatement` assumes only
-    the absence of a checksum collision. -/
-theorem C09_log_zero_partial (fid : Nat) (cipher : Nat → Nat → UInt8) (us : List LogUnit)
+/-- **Zero-filled tail, operational form.** The log is cut at `c` and followed by `n` zero bytes.
+    Let `(o, t) = tornAt …` be the offset and surviving bytes of the torn record. If the torn
+    candidate `t ++ 0ⁿ` is not accepted as a record (`TornRejected`, decidable), the result is the
+    same as for the truncated log. `C09_log_zero` below discharges `TornRejected` from the
+    checksum-only hypothesis `NoCrcCollision`. -/
+theorem C09_log_zero_operational (fid : Nat) (cipher : Nat → Nat → UInt8) (us : List LogUnit)
     (wf : ∀ u ∈ us, u.WF) (c n : Nat)
     (hno : TornRejected (cipher (tornAt cipher vlogHeaderSize c (unitsEntries us)).1)
       ((tornAt cipher vlogHeaderSize c (unitsEntries us)).2 ++ List.replicate n 0)) :
@@ -166,31 +92,37 @@ theorem C09_log_zero_boundary (fid : Nat) (cipher : Nat → Nat → UInt8) (us :
       ⟨none, deliveredUnits fid cipher vlogHeaderSize (unitsBefore cipher vlogHeaderSize c us),
         vlogHeaderSize +
           encLen cipher vlogHeaderSize (unitsEntries (unitsBefore cipher vlogHeaderSize c us))⟩ := by
-  apply C09_log_zero_partial fid cipher us wf c n
+  apply C09_log_zero_operational fid cipher us wf c n
   rw [hb, List.nil_append]
   exact tornRejected_zeros _ n
 
-/-- Checksum-only form of the hypothesis: wherever `safeRead.Entry` gets as far as comparing
-    checksums on `b`, they differ. -/
-def NoCrcCollision (b : Bytes) : Prop :=
-  match headerDecodeFrom b with
-  | .ok (h, r1) =>
-    (h.klen + h.vlen) % 2 ^ 32 + 4 ≤ r1.length →
-      beNat ((r1.drop ((h.klen + h.vlen) % 2 ^ 32)).take 4) ≠
-        crc32c (b.take (b.length - r1.length + (h.klen + h.vlen) % 2 ^ 32))
-  | .error _ => True
-
-/-- The full-strength statement of the zero-filled case (hypothesis: no CRC collision on the torn
-    candidate, nothing else). Proved below for cuts outside the varint header
-    (`C09_log_zero_boundary`; …); in general it is reduced by `C09_log_zero_partial` to
-    `TornRejected`, which the harness evaluates on every generated cut. -/
-def C09_log_zeroStatement : Prop :=
-  ∀ (fid : Nat) (cipher : Nat → Nat → UInt8) (us : List LogUnit), (∀ u ∈ us, u.WF) → ∀ (c n : Nat),
-    NoCrcCollision ((tornAt cipher vlogHeaderSize c (unitsEntries us)).2 ++ List.replicate n 0) →
+/-- **Zero-filled tail, full strength.** The log is cut at `c` and followed by `n` zero bytes.
+    Under the sole hypothesis that the torn candidate record (`tornAt`: the surviving bytes of the
+    first record that does not lie entirely before the cut, completed by the zeros) has no CRC
+    collision — wherever `safeRead.Entry` gets as far as comparing checksums on it, they differ —
+    `iterate` delivers exactly the units before the cut and returns the end of the last one.
+    (`NoCrcCollision` is decidable; it is false e.g. when the lost bytes were zeros anyway, in
+    which case nothing was damaged.) -/
+theorem C09_log_zero (fid : Nat) (cipher : Nat → Nat → UInt8) (us : List LogUnit)
+    (wf : ∀ u ∈ us, u.WF) (c n : Nat)
+    (hno : NoCrcCollision ((tornAt cipher vlogHeaderSize c (unitsEntries us)).2 ++ List.replicate n 0)) :
     iterate fid cipher ((encodeAll cipher vlogHeaderSize (unitsEntries us)).take c ++
         List.replicate n 0) =
       ⟨none, deliveredUnits fid cipher vlogHeaderSize (unitsBefore cipher vlogHeaderSize c us),
         vlogHeaderSize +
-          encLen cipher vlogHeaderSize (unitsEntries (unitsBefore cipher vlogHeaderSize c us))⟩
+          encLen cipher vlogHeaderSize (unitsEntries (unitsBefore cipher vlogHeaderSize c us))⟩ := by
+  apply C09_log_zero_operational fid cipher us wf c n
+  obtain ⟨ts, p, tail, _, _, _, htorn, htail⟩ := take_units cipher us vlogHeaderSize c wf
+  rw [htorn] at hno ⊢
+  simp only at hno ⊢
+  rcases htail with h | ⟨ks, e, j, hwf, _, h⟩
+  · subst h; simpa using tornRejected_zeros _ n
+  · subst h; exact tornRejected_take_zeros ks _ e hwf j n hno
+
+-- non-vacuity: a concrete cut log. Two units; the cut falls inside the end marker of the second.
+set_option maxRecDepth 100000 in
+example : (iterate 1 (fun _ => noKs)
+    ((encodeAll (fun _ => noKs) 20 (unitsEntries exUnits)).take 70 ++ List.replicate 30 0)).endOffset = 40 := by
+  decide
 
 end Badger
